@@ -15,5 +15,5 @@ CONSTANTS
   DevGCDropsEdge = FALSE
   DevNoReloadOpenBatch = FALSE
   DevKeyByBlockTs = FALSE
-INVARIANTS AbsIter AbsLastUpdated AbsAgree ImplKeyBrackets
+INVARIANTS AbsAll ImplKeyBrackets
 CHECK_DEADLOCK FALSE
